@@ -36,7 +36,7 @@ def ops():
         for v in V:
             out += [("set", k, v), ("append", k, v), ("setdefault", k, v)]
         out += [("del", k), ("pop", k), ("popd", k), ("poplist", k), ("setlist", k, ()), ("setlist", k, ("1",)), ("setlist", k, ("2", "1")), ("setlist", k, ("", ""))]
-    out += [("popitem",), ("clear",), ("update_pairs", (("a", "2"),)), ("update_pairs", (("b", "1"), ("b", "2"))), ("update_map", (("a", ""), ("b", "1"))), ("update_kw", (("b", "2"),))]
+    out += [("popitem",), ("clear",), ("update_self",), ("update_self_items",), ("update_pairs", (("a", "2"),)), ("update_pairs", (("b", "1"), ("b", "2"))), ("update_map", (("a", ""), ("b", "1"))), ("update_kw", (("b", "2"),))]
     return out
 
 
@@ -72,6 +72,10 @@ def apply_impl(m, op):
             m.update(dict(op[1]))
         elif o == "update_kw":
             m.update(**dict(op[1]))
+        elif o == "update_self":  # the mapping's own pairs, exactly as it hands them out, fed back into it
+            m.update(m.multi_items())
+        elif o == "update_self_items":
+            m.update(m.items())
     except KeyError:
         return ("KeyError",)
     except Exception as e:  # noqa
@@ -132,6 +136,15 @@ def apply_ref(l, op, impl_result):
     elif o in ("update_pairs", "update_map", "update_kw"):
         for k, v in op[1]:
             apply_ref(l, ("set", k, v), None)
+    elif o == "update_self":
+        for k, v in list(l):
+            apply_ref(l, ("set", k, v), None)
+    elif o == "update_self_items":
+        d = {}
+        for k, v in l:
+            d[k] = v
+        for k, v in list(d.items()):
+            apply_ref(l, ("set", k, v), None)
     return None
 
 
@@ -144,8 +157,10 @@ def views(m):
             return ("v", m[k])
         except KeyError:
             return ("KeyError",)
+    first = (len(m), bool(m), len(m.keys()), len(m.items()), len(m.values()))  # the size is asked for before any keyed view is consulted
     keys = list(m.keys())
     return {
+        "len_first": first,
         "multi_items": list(m.multi_items()),
         "getlist": {k: list(m.getlist(k)) for k in PROBE_KEYS},
         "index": {k: idx(k) for k in PROBE_KEYS},
@@ -165,6 +180,7 @@ def ref_views(l):
     for k, v in l:
         d[k] = v
     return {
+        "len_first": (len(d), bool(d), len(d), len(d), len(d)),
         "multi_items": list(l),
         "getlist": {k: _vals(l, k) for k in PROBE_KEYS},
         "index": {k: (("v", d[k]) if k in d else ("KeyError",)) for k in PROBE_KEYS},
@@ -186,10 +202,14 @@ def replay_history(init, hist):
     m = MutableMultiMapping(list(init))
     l = list(init)
     for i, op in enumerate(hist):
+        handed_out = [m.multi_items(), m.getlist("a"), list(m.keys())]  # what was handed out before must not change afterwards
+        frozen = [list(x) for x in handed_out]
         ri = apply_impl(m, op)
         rr = apply_ref(l, op, ri)
         if ri != rr:
             return m, l, (i, "result", ri, rr)
+        if [list(x) for x in handed_out] != frozen:
+            return m, l, (i, "aliasing", [list(x) for x in handed_out], frozen)
         va, vb = views(m), ref_views(l)
         if va != vb:
             diff = sorted(k for k in va if va[k] != vb[k])
@@ -268,6 +288,24 @@ def immutable_views(r, l, w):
             r.violation(f"equality:{cls.__name__}", {"pairs": list(l), "cls": cls.__name__}, f"{cls.__name__} equality/copy construction inconsistent for {l}")
 
 
+def form_via_request(iface, body):
+    from ..core import servers as SV
+    areq = SV.AReq(method="POST", headers=[("Content-Type", "application/x-www-form-urlencoded")], chunks=[body])
+    if iface == "wsgi":
+        from baize.wsgi import Request
+        return Request(SV.to_environ(areq)).form
+    from baize.asgi import Request
+    from ..core.vloop import run_coro
+    msgs = SV.to_messages(areq)
+
+    async def receive():
+        return msgs.pop(0) if msgs else {"type": "http.disconnect"}
+
+    async def prog():
+        return await Request(SV.to_scope(areq), receive).form
+    return run_coro(prog())
+
+
 def shards(tier, seed):
     out = [("bfs", i) for i in range(len(INITS))]
     out += [("query", i) for i in range(len(QA))]
@@ -336,6 +374,19 @@ def run_shard(desc, tier):
                 continue
             if not (q2 == q) or q2.multi_items() != l or q3.multi_items() != l:
                 r.violation("query-roundtrip", w, f"QueryParams({l}) -> {s!r} -> {q2.multi_items()}")
+                continue
+            # the same pairs as a url-encoded form body read through the two request classes: the same views
+            if s.isascii():
+                for iface in ("wsgi", "asgi"):
+                    try:
+                        fm = form_via_request(iface, s.encode("ascii"))
+                    except Exception as e:  # noqa
+                        r.violation(f"form-exception:{iface}:{type(e).__name__}", w, f"{iface} Request.form on body {s!r} raised {e!r:.100}")
+                        continue
+                    if views(fm) != views(q):
+                        va, vb = views(fm), views(q)
+                        diff = sorted(k for k in va if va[k] != vb[k])
+                        r.violation(f"form-views:{iface}", w, f"{iface} Request.form on body {s!r}: views {diff} differ from the query mapping of the same pairs: {[va[k] for k in diff]!r:.200} vs {[vb[k] for k in diff]!r:.200}")
         r.sample({"query_pairs": lists[-1], "string": str(QueryParams(lists[-1]))})
     return r
 
